@@ -353,7 +353,7 @@ pub fn check_state(st: &SubstState, ctx: &mut Ctx) {
     for id in 0..reg.types.len() as u32 {
         ctx.exec(1);
         let origin = &el.origin[id as usize];
-        if matches!(origin, Ty::BitVec(Prim::Bool, _)) {
+        if matches!(origin, Ty::Order(_)) {
             continue;
         }
         let want = crate::settings::canon_type_str(&ex.nested(origin, None));
